@@ -87,20 +87,18 @@ Definition conv_fp (w : string) : Z := mix (mix (hs (pascal_case w)) (hs (snake_
      4 two declarations share a name (translation unit = header ++ source for C)
      8 an include/import names a file that is not generated
     16 Go: unused import       32 C: struct without members     64 C: alignment not a power of 2
-   128 a string constant holds a character that needs escaping (emitted verbatim; Python, Go:
-       in C it is a macro body, which gcc only lexes when the macro is used)
-   256 Python: an enum without members becomes a class with an empty body *)
+   128 a string constant holds a character that needs escaping and that the translated
+       Formatter.escape_str_value does not escape (never, since the fix of str-escape) *)
 Definition bit (b : bool) (v : Z) : Z := if b then v else 0%Z.
 
 Definition bad_str_char (c : ascii) : bool :=
   let n := nat_of_ascii c in (n =? 34) || (n =? 92) || (n =? 10) || (n =? 13).
+(* [str_escaped_chars] is translated from Formatter.escape_str_value / the three format_str_value *)
+Definition char_escaped (c : ascii) : bool := existsb (Nat.eqb (nat_of_ascii c)) str_escaped_chars.
 Definition str_consts_ok (s : schema) (i : nat) : bool :=
   forallb (fun d => match d with
-                    | DConst _ (CvStr v) => negb (existsb bad_str_char (chars v))
+                    | DConst _ (CvStr v) => forallb (fun c => negb (bad_str_char c) || char_escaped c) (chars v)
                     | _ => true end) (f_defs (getf s i)).
-
-Definition py_enums_nonempty (s : schema) (i : nat) : bool :=
-  forallb (fun fd => match fd_def fd with DEnum _ _ [] => false | _ => true end) (flat_file (getf s i)).
 
 Definition tu_items (s : schema) (i : nat) (t : target) (flt : list string) : option (list item) :=
   match t with
@@ -120,8 +118,7 @@ Definition verdict (s : schema) (i : nat) (t : target) (flt : list string) : Z :
        bit (match t with TgGo => negb (go_imports_used_b its) | _ => false end) 16 +
        bit (match t with TgH | TgHO => negb (structs_nonempty_b its) | _ => false end) 32 +
        bit (match t with TgH | TgHO => negb (g_align s i) | _ => false end) 64 +
-       bit (match t with TgPy | TgGo => negb (str_consts_ok s i) | _ => false end) 128 +
-       bit (match t with TgPy => negb (py_enums_nonempty s i) | _ => false end) 256)%Z
+       bit (match t with TgPy | TgGo => negb (str_consts_ok s i) | _ => false end) 128)%Z
   | _, _ => 1%Z
   end.
 
@@ -173,7 +170,6 @@ Definition guard_mask (L : lang) (s : schema) (i : nat) : Z :=
    bit (match L with LC => typedef_fn_clash s i | _ => negb (g_derived L s i) end) 4 +
    bit (negb (g_qualify L s i)) 8 +
    bit (negb (g_import L s i)) 16 +
-   bit (match L with LPy => negb (g_enum_nonempty s i) | _ => false end) 32 +
    bit (match L with LGo => negb (g_go_used s i) | _ => false end) 64 +
    bit (match L with LC => negb (g_struct_nonempty s i) | _ => false end) 128 +
    bit (match L with LC => negb (g_align s i) | _ => false end) 256)%Z.
